@@ -350,6 +350,14 @@ def r5_lowering_helper(prog, ctx, rule="R5"):
             ctx.inconclusive(rule, inst, st.where, why2)
 
 
+def _alloc_locals(f):
+    out = set()
+    for lhs, rhs, st in f.assignments():
+        if rhs is not None and rhs.strip().k == "CallExpr" and rhs.strip().j.get("callee") in ("malloc", "calloc", "strdup", "strndup", "realloc"):
+            out.add(lhs["name"] if isinstance(lhs, dict) else render(lhs))
+    return out
+
+
 def r7_def_wrappers(prog, ctx):
     """the ...ValueDef wrappers hand the getter's verdict through: every return returns the variable that received the
     getter's result, unmodified, and the default is stored only for ECONF_NOKEY"""
@@ -387,6 +395,12 @@ def r7_def_wrappers(prog, ctx):
             if cb not in cfg.reachable(cfg.block_of(r), forward=False):
                 continue
             if not r.children or render(r.children[0]) != var:
+                # an argument refusal (`if (result == NULL) return ECONF_ARGUMENT_IS_NULL_VALUE;`, an allocation failure) is not a verdict about the text
+                pnames = [q["name"] for q in f.params]
+                okp, cutp = cfg.all_paths_cut(cfg.block_of(r), lambda lit, b, i: lit is not None and lit.kind == "truth" and not lit.pol and (
+                    lit.atom in pnames or lit.atom in _alloc_locals(f)))
+                if okp and cutp and r.children and query.returned_constant(r) not in (None, 0, "ECONF_SUCCESS"):
+                    continue
                 bad = (r, "returns %s instead of the getter's result" % (render(r.children[0]) if r.children else "nothing"))
                 break
             defs = rd.reaching(var, r)
